@@ -2,6 +2,7 @@ package main
 
 import (
 	"fmt"
+	"os"
 	"regexp"
 	"sort"
 	"strings"
@@ -114,6 +115,10 @@ func checkC01(c *core.Ctx) {
 			plan{fo.Profile{Only: only("if-else", "match-union", "match-union-default", "let", "lambda-let", "partial-let", "pipe-partial", "local-fun", "seq", "lifted-annotated", "lifted-unannotated", "logic", "app-add", "app-fnvalue", "app-say", "if-only", "let-destr", "interp", "field-of-var")}, 3, "control-flow and closure constructs"},
 			plan{fo.Profile{Only: only("if-else", "let", "partial-let", "lambda-let", "seq", "app-add", "local-fun", "app-fnvalue")}, 4, "closure core"})
 	}
+	if os.Getenv("VERIF_C01_CORPUS_ONLY") != "" {
+		plans = nil
+		c.NotExhaustive("corpus only (debugging switch)")
+	}
 	used := map[string]int64{}
 	for _, pl := range plans {
 		if c.Expired() || c.TooManyViolations() {
@@ -136,6 +141,15 @@ func checkC01(c *core.Ctx) {
 			break
 		}
 		c.Set("largest_fuel_completed", fmt.Sprintf("k=%d (%s alphabet)", pl.k, pl.name))
+	}
+	// the hand-kept boundary corpus
+	if !c.Expired() && !c.TooManyViolations() {
+		var cc []*c01Case
+		for _, k := range fo.Corpus() {
+			cc = append(cc, &c01Case{cs: k})
+		}
+		c01RunCases(c, sc, fc, cc, used)
+		c.Set("corpus_programs", len(cc))
 	}
 	// alphabet coverage: every production must have been used
 	hist := map[string]int64{}
@@ -240,6 +254,15 @@ var c01GoErr = regexp.MustCompile(`gen_t\.go:\d+:\d+: (.*)`)
 
 // c01Classify gives a violation a specific signature (program shape / failure class).
 func c01Classify(cs *c01Case, r gobatch.Result) (sig, what string) {
+	if cs.cs.Name != "" {
+		// corpus entries are identified by name: the signature names the specific input
+		s2, w2 := c01ClassifyGen(cs, r)
+		return "C01:corpus:" + cs.cs.Name, strings.TrimPrefix(s2, "C01:") + ": " + w2
+	}
+	return c01ClassifyGen(cs, r)
+}
+
+func c01ClassifyGen(cs *c01Case, r gobatch.Result) (sig, what string) {
 	switch r.Status {
 	case "ok":
 		if cs.wantDef != cs.want && r.Stdout == cs.wantDef {
